@@ -60,11 +60,12 @@ var Check = &run.Check{
 	ID:    "C18",
 	Level: "exploration",
 	Rule: "case index mod 15 selects the sub-check. 0-9: synthetic call model (modelgen: random/dag/tree/chain/cycle/fan-in/mutual/dense graphs with repeated calls, self calls, calls without receiver type, " +
-		"calls to external and to undeclared methods of project classes, object creations) -> count.BuildCallMap, every Nth through `coca count -d deps.json` twice (+ `-t k`). " +
-		"10-11: generated Java project (1-6 files, one class each: *Util/*Utils classes with static methods only, *Service classes, ordinary and abstract classes; methods with every subset of " +
+		"calls to external and to undeclared methods of project classes, object creations; in every second model call records carry real-looking positions: one caller calls the SAME callee 2-3 times on ONE line at different columns, adjacent or with another call in between) -> count.BuildCallMap, every Nth through `coca count -d deps.json` twice (+ `-t k`). " +
+		"10-11: generated Java project (1-6 files, one class each: *Util/*Utils classes with static methods only, also named *ServiceUtil(s)/ServiceUtils/WebServiceUtil, *Service classes, ordinary and abstract classes; methods with every subset of " +
 		"{public|private|protected, static, final, synchronized} or {public|protected, abstract} in random order, annotations before or between the keywords; bodies returning null as the only/first/middle/last return " +
-		"statement, nested in for/while/try/switch/else; @Nullable/@CheckForNull as only/first/middle/last annotation or after a keyword; decoys: null outside return statements, @Nonnull, boolean `return p == null`) " +
-		"-> JavaIdentifierApp + JavaFullApp -> evaluate.Analyser.Analysis, every Nth through `coca analysis -p DIR` + `coca evaluate` (coca_reporter/evaluate.json). " +
+		"statement, nested in for/while/try/switch/else; @Nullable/@CheckForNull as only/first/middle/last annotation or after a keyword; both annotations on one method; annotation plus return null; null returned on two paths; decoys: null outside return statements, @Nonnull, boolean `return p == null`; " +
+		"bodies start with unqualified calls of same-class methods, one per line or the same callee 2-3 times on one line) " +
+		"-> JavaIdentifierApp + JavaFullApp -> evaluate.Analyser.Analysis, every Nth through `coca analysis -p DIR` + `coca evaluate` (coca_reporter/evaluate.json); the analysed model of every project also goes through count.BuildCallMap / `coca count` and is compared with its own recorded call entries. " +
 		"12-14: classes whose method names are plain camel case over 40 ordinary words, 12 English function words and digit groups -> concept.ConceptAnalyser.Analysis, every Nth through `coca concept -d deps.json`. " +
 		"non-trivial = model: some declared method has >= 2 call sites and some call goes to an undeclared name; project: >= 2 classes, a static method with >= 2 modifiers and a nullable method; " +
 		"names: >= 3 words of which one is a stop word; distinct = hash of (kind, structure without names)",
@@ -73,6 +74,8 @@ var Check = &run.Check{
 		"generated classes have no constructors, no inner types, and there are no interfaces or enums: whether those count as methods/classes is not settled by the statement",
 		"a utility class is generated only in the unambiguous shape (name ends in Util/Utils, nothing but static methods); every other class has an instance method and no 'util' in its name",
 		"return expressions never contain an identifier or string with the letters 'null'; ternaries with a null branch are not generated",
+		"for generated projects the expected reference counts are the call entries the full pass RECORDED (which receiver a call resolves to is C02's subject); the planted same-line calls are only counted to show that such entries occur",
+		"a class named *ServiceUtil(s) with nothing but static methods is a utility class under any reading; a *Service class without 'util' in its name is not",
 		"the key format of the nullable list and of the count map (package.Class.method) is read from the code, the statement does not fix it",
 		"word lists: only words that are in neither of coca's stop-word lists count as words, only English function words (the, of, and, for, with, to, in, by, from, or, on, at) are planted as stop words; only the SUM of the reported counts is asserted",
 		"`coca count -t k` is run with k in 1..rows+2; nothing is asserted about which or how many rows it keeps beyond: it does not crash, every row is a correct pair, both runs print the same",
@@ -154,7 +157,12 @@ func runModel(c *run.Ctx, o *run.Outcome, seq int) {
 		opts = modelgen.Opts{MaxClasses: 2, MaxMethods: 4, MaxOut: 3, Quotes: false}
 	}
 	m := modelgen.Generate(r.Fork(), opts)
+	sameLineGroups, sameLineSites := 0, 0
+	if seq%2 == 1 || seq < 20 {
+		sameLineGroups, sameLineSites = shareLines(r.Fork(), m)
+	}
 	deps := common.ToCoca(m)
+	spreadColumns(deps)
 	want := oracle.EvalCallCounts(m)
 	declared := m.Declared()
 	sites, toUndeclared, noReceiver, creations, repeated := 0, 0, 0, 0, false
@@ -189,6 +197,11 @@ func runModel(c *run.Ctx, o *run.Outcome, seq int) {
 	o.Count("model_call_sites_to_undeclared_names", toUndeclared)
 	o.Count("model_call_sites_without_receiver", noReceiver)
 	o.Count("model_object_creations", creations)
+	o.Count("model_same_callee_same_line_groups", sameLineGroups)
+	o.Count("model_call_sites_in_same_line_groups", sameLineSites)
+	if sameLineGroups > 0 {
+		o.Count("model_cases_with_same_line_groups", 1)
+	}
 	o.Count("model_methods_never_called", len(declared)-len(want))
 	o.Seen("graph_modes", m.Shape)
 	witness := map[string]interface{}{"kind": "model", "model": m.Describe(), "expected_counts": want}
@@ -269,6 +282,77 @@ func runModel(c *run.Ctx, o *run.Outcome, seq int) {
 	}
 }
 
+// shareLines rewrites the positions of a synthetic model the way real sources look: one caller invokes the
+// SAME callee two or three times on ONE line (`repo.size() + repo.size()`), besides its calls on other lines;
+// sometimes a different callee shares that line as well. It returns the number of (caller, callee, line)
+// groups with >= 2 call sites and the number of call sites in them.
+func shareLines(r *run.Rand, m *modelgen.Model) (groups, sites int) {
+	for _, me := range m.Methods() {
+		if len(me.Calls) == 0 || !r.Chance(2, 3) {
+			continue
+		}
+		for k := r.Range(1, 2); k > 0; k-- {
+			i := r.Intn(len(me.Calls))
+			orig := me.Calls[i]
+			copies := r.Range(1, 2)
+			var ins []modelgen.CallRef
+			for j := 0; j < copies; j++ {
+				ins = append(ins, orig) // same callee, same line
+			}
+			if r.Chance(1, 3) && len(me.Calls) > 1 {
+				// another call of the caller moves onto that line too
+				j := r.Intn(len(me.Calls))
+				if j != i {
+					me.Calls[j].Line = orig.Line
+				}
+			}
+			if r.Bool() {
+				// adjacent: f(..) + f(..)
+				rest := append([]modelgen.CallRef(nil), me.Calls[i+1:]...)
+				me.Calls = append(append(me.Calls[:i+1], ins...), rest...)
+			} else {
+				// something else in between: f(..) + g(..) + f(..)
+				me.Calls = append(me.Calls, ins...)
+			}
+		}
+	}
+	declared := m.Declared()
+	for _, me := range m.Methods() {
+		per := map[string]int{}
+		for _, cl := range me.Calls {
+			if cl.Class == "" {
+				continue
+			}
+			if _, ok := declared[cl.Full()]; ok {
+				per[cl.Full()+"@"+strconv.Itoa(cl.Line)]++
+			}
+		}
+		for _, n := range per {
+			if n >= 2 {
+				groups++
+				sites += n
+			}
+		}
+	}
+	return
+}
+
+// spreadColumns gives the call records of one line different start columns, in record order.
+func spreadColumns(deps []core_domain.CodeDataStruct) {
+	for i := range deps {
+		for j := range deps[i].Functions {
+			onLine := map[int]int{}
+			calls := deps[i].Functions[j].FunctionCalls
+			for k := range calls {
+				n := onLine[calls[k].Position.StartLine]
+				onLine[calls[k].Position.StartLine] = n + 1
+				calls[k].Position.StartLinePosition = 8 + 19*n
+				calls[k].Position.StopLinePosition = 8 + 19*n + 11
+			}
+		}
+	}
+}
+
 func runCount(c *run.Ctx, o *run.Outcome, dir string, args ...string) ([]oracle.EvalPair, bool) {
 	res := common.RunCLI(c.CocaBin, dir, nil, args...)
 	if res.TimedOut {
@@ -330,7 +414,7 @@ func runProject(c *run.Ctx, o *run.Outcome, seq int) {
 	for _, cl := range p.Classes {
 		s := cl.Kind + "("
 		for _, m := range cl.Methods {
-			s += m.ModKey() + "/" + m.NullReturn + "/" + m.AnnoPos + ";"
+			s += m.ModKey() + "/" + m.NullReturn + "/" + m.AnnoPos + "/" + strconv.Itoa(len(m.Calls)) + "." + strconv.Itoa(m.SameLineCalls) + ";"
 			o.Count("project_methods", 1)
 			o.Seen("modifier_orders", m.ModKey())
 			if m.Static {
@@ -351,6 +435,12 @@ func runProject(c *run.Ctx, o *run.Outcome, seq int) {
 			if m.NullAnno != "" {
 				o.Count("project_methods_null_annotation_"+m.AnnoPos, 1)
 			}
+			if m.Reasons() >= 2 {
+				o.Count("project_methods_nullable_on_2plus_grounds", 1)
+			}
+			if m.NullAnno != "" && m.NullReturn != "" {
+				o.Count("project_methods_annotated_and_returning_null", 1)
+			}
 			if m.NullCompare {
 				o.Count("project_decoy_null_comparison_returns", 1)
 			}
@@ -360,6 +450,9 @@ func runProject(c *run.Ctx, o *run.Outcome, seq int) {
 		}
 		shape = append(shape, s+")")
 		o.Count("project_classes_"+cl.Kind, 1)
+		if cl.Kind == evalgen.KindUtil && strings.Contains(strings.ToLower(cl.Name), "service") {
+			o.Count("project_classes_util_named_service_too", 1)
+		}
 	}
 	o.Shape = run.ShapeHash("project", strings.Join(shape, "|"))
 	o.NonTrivial = len(p.Classes) >= 2 && staticMulti && len(want.Nullable) > 0
@@ -404,6 +497,26 @@ func runProject(c *run.Ctx, o *run.Outcome, seq int) {
 			o.Violate("cli-crash-evaluate", "`coca evaluate` exit %d: %s", res.ExitCode, head(res.Stderr))
 			return
 		}
+		// the reference counts of the analysed project: `coca count` over the deps.json `coca analysis` wrote
+		var full []core_domain.CodeDataStruct
+		db, derr := ioutil.ReadFile(filepath.Join(c.Scratch(), "coca_reporter", "deps.json"))
+		if derr != nil || json.Unmarshal(db, &full) != nil {
+			o.Violate("cli-no-output", "`coca analysis` wrote no readable coca_reporter/deps.json")
+			return
+		}
+		if rows, ok := runCount(c, o, c.Scratch(), "count"); ok {
+			o.Count("cli_count_cases_over_analysed_projects", 1)
+			counts := map[string]int{}
+			for _, row := range rows {
+				if _, dup := counts[row.Key]; dup {
+					o.Violate("cli-count-listing-duplicate-row", "`coca count`: %q is listed twice", row.Key)
+				}
+				counts[row.Key] = row.Value
+			}
+			checkProjectCounts(o, p, witness, full, counts, "cli-")
+		} else {
+			return
+		}
 		// two observation points: the printed table (numbers only) and coca_reporter/evaluate.json
 		tbl, nNullable, ok := parseEvaluateTable(res.Stdout)
 		if !ok {
@@ -424,18 +537,22 @@ func runProject(c *run.Ctx, o *run.Outcome, seq int) {
 		got = fromModel(model)
 	} else {
 		var model evaluator.EvaluateModel
+		var full []core_domain.CodeDataStruct
+		var counts map[string]int
 		panicked, val, site := run.Guard(func() {
 			ia := javaapp.NewJavaIdentifierApp()
 			ident := ia.AnalysisPath(dir)
 			fa := javaapp.NewJavaFullApp()
-			full := fa.AnalysisPath(dir, ident)
+			full = fa.AnalysisPath(dir, ident)
 			model = evaluate.NewEvaluateAnalyser().Analysis(full, ident)
+			counts = count.BuildCallMap(full)
 		})
 		if panicked {
-			o.Violate("panic@"+site, "identifier pass / full pass / Analyser.Analysis panicked: %s", val)
+			o.Violate("panic@"+site, "identifier pass / full pass / Analyser.Analysis / BuildCallMap panicked: %s", val)
 			return
 		}
 		got = fromModel(model)
+		checkProjectCounts(o, p, witness, full, counts, "")
 	}
 	witness["observed"] = got
 	o.Count("project_nullable_methods_observed", len(got.Nullable))
@@ -493,6 +610,70 @@ func parseEvaluateTable(out string) (s oracle.EvalSummary, nullable int, ok bool
 		}
 	}
 	return s, nullable, found == 3
+}
+
+// checkProjectCounts: the reference counts of the analysed project equal the number of call entries the model
+// (the full pass's output) records for each declared method. The expectation is taken from the recorded model,
+// not from the sources: which receiver a call resolves to is C02's business. What the generator planted
+// (unqualified same-class calls, two or three of them on one line) only feeds the counters that show the
+// recorded model really contains same-line call sites.
+func checkProjectCounts(o *run.Outcome, p *evalgen.Project, witness map[string]interface{}, full []core_domain.CodeDataStruct, counts map[string]int, pre string) {
+	var declared []string
+	var records []oracle.EvalCallRecord
+	for _, ds := range full {
+		for _, fn := range ds.Functions {
+			caller := ds.Package + "." + ds.NodeName + "." + fn.Name
+			declared = append(declared, caller)
+			for _, cl := range fn.FunctionCalls {
+				callee := cl.Package + "." + cl.NodeName + "." + cl.FunctionName
+				if cl.FunctionName == "" {
+					callee = cl.Package + "." + cl.NodeName
+				}
+				records = append(records, oracle.EvalCallRecord{Caller: caller, Callee: callee, Line: cl.Position.StartLine, Col: cl.Position.StartLinePosition})
+			}
+		}
+	}
+	want := oracle.EvalCountsFromRecords(declared, records)
+	witness["recorded_call_counts"] = want
+	witness["observed_call_counts"] = counts
+	isDecl := map[string]bool{}
+	for _, d := range declared {
+		isDecl[d] = true
+	}
+	per := map[string]int{}
+	for _, rc := range records {
+		if isDecl[rc.Callee] {
+			per[rc.Caller+">"+rc.Callee+"@"+strconv.Itoa(rc.Line)]++
+		}
+	}
+	for _, n := range per {
+		if n >= 2 {
+			o.Count("project_recorded_same_callee_same_line_groups", 1)
+			o.Count("project_recorded_call_sites_in_same_line_groups", n)
+		}
+	}
+	planted := map[string]int{}
+	for _, cl := range p.Classes {
+		for _, m := range cl.Methods {
+			o.Count("project_planted_same_line_call_lines", m.SameLineCalls)
+			for _, pc := range m.Calls {
+				planted[cl.Pkg+"."+cl.Name+"."+pc.Callee]++
+				o.Count("project_planted_call_sites", 1)
+			}
+		}
+	}
+	for k, n := range planted {
+		if want[k] == n {
+			o.Count("project_planted_callees_recorded_as_planted", 1)
+		} else {
+			o.Count("project_planted_callees_recorded_differently", 1)
+		}
+	}
+	o.Count("project_count_keys_expected", len(want))
+	o.Count("project_count_keys_observed", len(counts))
+	for _, mm := range oracle.EvalCheckRecordedCounts(declared, records, counts) {
+		o.Violate(pre+"project-"+mm.Sig, "reference counts of the analysed project: %s", mm.Msg)
+	}
 }
 
 func fromModel(m evaluator.EvaluateModel) oracle.EvalSummary {
